@@ -9,7 +9,9 @@ import os, subprocess, sys
 
 ROOT = os.path.dirname(os.path.dirname(os.path.abspath(__file__)))
 
-def kind(c): return c.req.split(' ', 1)[0]
+def kind(c):
+    k = c.req.split(' ', 1)[0]
+    return 'open' if k == 'openb' else k   # openb = the same opens of a segment whose file name is not valid UTF-8
 
 # ------------------------------------------------------------------------------------------- hooks
 
@@ -100,7 +102,7 @@ PROPS_HEADER = {
                          or (kind(c) == 'sandwich' and bool(c.tags & {'growth', 'near5s', 'nearVoid', 'nearBlur', 'errMalformed', 'errCausality', 'panic'}))
                          or kind(c) == 'cabi'
                          or (kind(c) == 'open' and not ({'usable'} & c.tags)),
-    rule="seg: as C16 (the image after start-up + first publication is decoded through the document's diagram offsets and type annotations and must give the published record, version 1, an even non-zero generation, declared size >= 72 and = 72 = file size when re-created); C17magic: bytes 0..8 of the image against the document's magic literals. sandwich: the client generator's records x clock readings (threshold grid subset + seeded random incl. 4% out-of-range) written by the real ShmWriter, read by ClockBoundClient::now() under the harness's virtual clock and by clockbound_now() in the C process under its interposed clock_gettime; results must be identical incl. error kind and errno (a Rust panic = SIGABRT of the C process). open: error kind / errno / detail of both client libraries, and after a successful open+close eight more open/close cycles must not grow the process's mappings or descriptors (both libraries). cabi: one line. distinct = sha1 of request; non-trivial = seg with non-trivial field values, sandwich near a threshold / with drift growth / with an error outcome, cabi, open of an unusable path",
+    rule="seg: as C16 (the image after start-up + first publication is decoded through the document's diagram offsets and type annotations and must give the published record, version 1, an even non-zero generation, declared size >= 72 and = 72 = file size when re-created); C17magic: bytes 0..8 of the image against the document's magic literals. sandwich: the client generator's records x clock readings (threshold grid subset + seeded random incl. 4% out-of-range) written by the real ShmWriter, read by ClockBoundClient::now() under the harness's virtual clock and by clockbound_now() in the C process under its interposed clock_gettime; results must be identical incl. error kind and errno (a Rust panic = SIGABRT of the C process). open: error kind / errno / detail of both client libraries (also for a segment whose file name is not valid UTF-8: ShmReader::new and clockbound_open get the raw bytes, the Rust client a UTF-8 symbolic link), and after a successful open+close eight more open/close cycles must not grow the process's mappings or descriptors (both libraries). cabi: one line. distinct = sha1 of request; non-trivial = seg with non-trivial field values, sandwich near a threshold / with drift growth / with an error outcome, cabi, open of an unusable path",
     trusted_base=HEADER_TB + ["clock_gettime interposition in the C process (every answer checks that exactly one realtime and one monotonic read were intercepted)"],
     assumptions=["C17magic fails on the current docs/PROTOCOL.md (known defect D5: the byte string printed there is the big-endian image); it passes once the description gives the two native-endian 32-bit words 0x414D5A4E, 0x43420200 (and/or the little-endian bytes 4E 5A 4D 41 00 02 42 43)"],
  ),
